@@ -1,6 +1,10 @@
 """C13 - histograms conserve weight and never write outside their bins (DESIGN.md section 5, C13)"""
 import os, re
-from vlib import core, ccv, native
+import time
+import sympy as sp
+import z3
+from vlib import core, ccv, native, rvc
+from vlib.rvc import D, Mx, Exec, Ret, SInt
 from vlib.core import Ob
 
 CDIR = os.path.join(core.VERIF, 'contracts', 'C13')
@@ -8,7 +12,7 @@ META = {
     'level': 'proof',
     'functions': [],
     'trusted_base': ['CBMC 6.11 (goto-cc C front end, dfcc contract instrumentation, SAT back end, IEEE-754 float_bv encoding)',
-                     'CBMC built-in models of floor(), isnan(), isinf()'],
+                     'CBMC built-in models of floor(), isnan(), isinf()', 'RVC executor + z3 for the which-bin / range obligations (real arithmetic, floor and numeric_limits by contract)'],
     'assumptions': [],
     'not_decided': ['csg_density / tabulatedpotential.cc callers', 'weight conservation over a whole stream (follows from the per-call frame by induction; not machine-checked)'],
 }
@@ -58,7 +62,251 @@ void h_process(void) {
                                route_note='verbatim body, all finite v, nbins <= 1e9, both modes')
 
 
+BIG = 9 * 10 ** 18
+
+
+def job_process_logic(seed):
+    """HistogramNew::Process over the reals (RVC): which bin is hit. floor by its contract; symbolic nbins; C99 % ; all paths"""
+    rvc.reset()
+    rel = 'tools/src/libtools/histogramnew.cc'
+    fns = rvc.functions(rvc.ast(rel, 'HistogramNew::Process'))
+    if 'Process' not in fns:
+        raise core.Undecided('front end: HistogramNew::Process not found')
+    fn = fns['Process'][0]
+    F = 'HistogramNew::Process'
+    obs = []
+    v, mn, st, sc = sp.symbols('v hmin step scale', real=True)
+    nb, kf = sp.Symbol('nbins', integer=True), sp.Symbol('kf', integer=True)
+    zk, zn = z3.Int('kf'), z3.Int('nbins')
+    for periodic in (False, True):
+        P = rvc.Paths()
+        while True:
+            P.start()
+            rvc.CTX.base = [z3.Real('step') > 0, zn >= 1, zn < BIG]     # a histogram cannot have 9e18 bins in memory
+            writes = []
+            def floor_c(x):
+                x = D.lift(x)
+                zx = rvc.to_z3(sp.together(x.v))
+                rvc.CTX.base += [z3.ToReal(zk) <= zx, zx < z3.ToReal(zk) + 1]      # contract of floor
+                return D(kf)
+            def y_ref(tbl, i):
+                return rvc.Ref(lambda: D(sp.Function('y')(SInt.ex(i))), lambda val, i=i: writes.append((i, val)))
+            this = {'min_': D(mn), 'step_': D(st), 'nbins_': SInt(nb), 'periodic_': periodic, 'data_': 'TABLE'}
+            ex = Exec({'v': D(v), 'scale': D(sc)}, {'decide': P.decide, 'floor': floor_c, 'y': y_ref}, {}, this)
+            try:
+                ex.stmt(rvc.body_of(fn))
+            except Ret:
+                pass
+            tag = '%s.p%d' % ('periodic' if periodic else 'plain', P.count)
+            x = (v - mn) / st
+            near = z3.And(rvc.to_z3(v - (mn + kf * st)) <= rvc.to_z3(st / 2), rvc.to_z3(v - (mn + kf * st)) >= -rvc.to_z3(st / 2))
+            repres = z3.And(zk > -BIG, zk < BIG)       # bin position representable as an index (the code drops anything beyond +-9e18 bins)
+            if writes:
+                if len(writes) != 1:
+                    obs.append(Ob('C13.process.logic/%s/one-write' % tag, F, 'exactly one bin is written', 'RVC', 'symbolic execution', core.REFUTED, 0, str(len(writes)), witness={'writes': len(writes)}))
+                idx, val = writes[0]
+                zi = rvc.to_z3(SInt.ex(idx))
+                obs.append(rvc.logic('C13.process.logic/%s/in-range' % tag, F, 'written index lies in [0, nbins)', z3.And(zi >= 0, zi < zn), pc=P.pc))
+                obs.append(rvc.logic('C13.process.logic/%s/nearest' % tag, F, 'the value lies within half a step of the centre min + k*step of its bin position k (nearest centre)', near, pc=P.pc))
+                if periodic:
+                    # congruence by exact division: every (a mod n) is a - n*q for an integer q, so index - k must be a polynomial multiple of nbins
+                    qs = []
+                    def demod(e):
+                        e = sp.sympify(e)
+                        if isinstance(e, sp.Mod):
+                            q = sp.Symbol('q%d' % len(qs), integer=True); qs.append(q)
+                            return demod(e.args[0]) - e.args[1] * q
+                        if e.args:
+                            return e.func(*[demod(a) for a in e.args])
+                        return e
+                    diff = sp.expand(demod(SInt.ex(idx)) - kf)
+                    ok = sp.rem(diff, nb, nb) == 0
+                    obs.append(Ob('C13.process.logic/%s/wrap' % tag, F, 'periodic: written index is congruent to the bin position k modulo nbins (index - k is an exact multiple of nbins)', 'RVC',
+                                  'polynomial division (sympy)', core.PROVED if ok else core.REFUTED, 0, 'index - k = %s' % diff, witness=None if ok else {'index_minus_k': str(diff)}))
+                else:
+                    obs.append(rvc.logic('C13.process.logic/%s/accept' % tag, F, 'non-periodic: written index IS the bin position k (so 0 <= k < nbins: within half a step of the range)', zi == zk, pc=P.pc))
+                obs.append(rvc.identity('C13.process.logic/%s/weight' % tag, F, 'the bin is incremented by exactly the weight', val.v - sp.Function('y')(SInt.ex(idx)), sc, seed))
+            else:
+                if periodic:
+                    obs.append(rvc.logic('C13.process.logic/%s/discard' % tag, F, 'periodic: a value is dropped only if its bin position is not representable (|k| >= 9e18)', z3.Not(repres), pc=P.pc))
+                else:
+                    obs.append(rvc.logic('C13.process.logic/%s/discard' % tag, F, 'non-periodic: a value is dropped only if its bin position k is outside [0, nbins)', z3.Or(zk < 0, zk >= zn), pc=P.pc))
+            if not P.next():
+                break
+    mf = [{'name': F, 'file': rel, 'ast_nodes': rvc.node_count(fn), 'route': 'RVC'}]
+    for o in obs:
+        o['functions'] = mf
+    return obs
+
+
+def job_initialize(seed):
+    rvc.reset()
+    rel = 'tools/src/libtools/histogramnew.cc'
+    fns = rvc.functions(rvc.ast(rel, 'HistogramNew::Initialize_'))
+    if 'Initialize_' not in fns:
+        raise core.Undecided('front end: HistogramNew::Initialize_ not found')
+    fn = fns['Initialize_'][0]
+    F = 'HistogramNew::Initialize_'
+    obs = []
+    mn, mx = sp.symbols('hmin hmax', real=True)
+    for periodic in (False, True):
+        for n in (1, 2, 3, 6):
+            xs = {}
+            table = {'n': None}
+            def resize(t, k):
+                table['n'] = rvc._i(k)
+            def x_ref(t, i):
+                i = rvc._i(i)
+                return rvc.Ref(lambda: xs[i], lambda val, i=i: xs.__setitem__(i, val))
+            cb = {'resize': resize, 'x': x_ref, 'y': lambda t: rvc.Ref(lambda: None, lambda v: table.__setitem__('y', v)), 'yerr': lambda t: rvc.Ref(lambda: None, lambda v: table.__setitem__('yerr', v)),
+                  'flags': lambda t: rvc.Ref(lambda: None, lambda v: table.__setitem__('flags', v)),
+                  'construct': lambda ex, nn, ty, args: ('FLAGS' if 'vector<char' in ty else NotImplemented)}
+            this = {'min_': D(mn), 'max_': D(mx), 'step_': D(0), 'nbins_': n, 'periodic_': periodic, 'data_': 'TABLE'}
+            ex = Exec({}, cb, {}, this)
+            try:
+                ex.stmt(rvc.body_of(fn))
+            except Ret:
+                pass
+            tag = '%s.n%d' % ('periodic' if periodic else 'plain', n)
+            bound = 'nbins = %d' % n
+            exp_step = sp.Integer(1) if n == 1 else ((mx - mn) / n if periodic else (mx - mn) / (n - 1))
+            obs.append(rvc.identity('C13.init/%s/step' % tag, F, 'step = (max-min)/(n-1), (max-min)/n when periodic, 1 for a single bin', this['step_'].v, exp_step, seed, bound=bound))
+            okn = table['n'] == n and sorted(xs) == list(range(n)) and isinstance(table.get('y'), Mx) and table['y'].r == n and all(rvc.nf_zero(e.v) for e in table['y'].flat())
+            obs.append(Ob('C13.init/%s/size' % tag, F, 'table resized to nbins, every centre written once, contents zeroed', 'RVC', 'symbolic execution', core.BOUNDED if okn else core.REFUTED, 0, '', bound=bound,
+                          witness=None if okn else {'n': table['n'], 'written': sorted(xs)}))
+            for i in sorted(xs):
+                obs.append(rvc.identity('C13.init/%s/centre%d' % (tag, i), F, 'bin centre x_i == min + i*step', xs[i].v, mn + i * exp_step, seed, bound=bound))
+    mf = [{'name': F, 'file': rel, 'ast_nodes': rvc.node_count(fn), 'route': 'RVC'}]
+    for o in obs:
+        o['functions'] = mf
+    return obs
+
+
+def job_normalize(seed, n=3):
+    rvc.reset()
+    rel = 'tools/src/libtools/histogramnew.cc'
+    fns = rvc.functions(rvc.ast(rel, 'HistogramNew::Normalize'))
+    fn = fns['Normalize'][0]
+    F = 'HistogramNew::Normalize'
+    obs = []
+    st = sp.Symbol('step', positive=True)
+    P = rvc.Paths()
+    bound = '%d bins' % n
+    while True:
+        P.start()
+        rvc.CTX.base = [z3.Real('step') > 0]
+        ys = Mx.vec([sp.Symbol('y%d' % i, real=True) for i in range(n)])
+        y0 = [e.v for e in ys.flat()]
+        signs = []
+        def cwiseAbs(m):
+            out = []
+            for e in m.flat():
+                pos = P.decide(sp.Ge(e.v, 0))
+                signs.append(pos)
+                out.append(e if pos else -e)
+            return Mx.vec(out)
+        ex = Exec({}, {'decide': P.decide, 'y': lambda t: ys, 'cwiseAbs': cwiseAbs}, {}, {'data_': 'TABLE', 'step_': D(st)})
+        try:
+            ex.stmt(rvc.body_of(fn))
+        except Ret:
+            pass
+        tag = 'p%d' % P.count
+        S = sum((a if sgn else -a) for a, sgn in zip(y0, signs))
+        # precondition: total weight non-zero
+        for i in range(n):
+            obs.append(rvc.identity('C13.normalize/%s/ratio%d' % (tag, i), F, "y_i' == y_i / (sum|y| * step): bin ratios unchanged", ys.g(i).v, y0[i] / (S * st), seed, bound=bound))
+        integ = sum((ys.g(i).v if signs[i] else -ys.g(i).v) for i in range(n)) * st
+        obs.append(rvc.identity('C13.normalize/%s/integral' % tag, F, "sum|y'| * step == 1 on this sign pattern", integ, sp.Integer(1), seed, bound=bound))
+        if not P.next():
+            break
+    mf = [{'name': F, 'file': rel, 'ast_nodes': rvc.node_count(fn), 'route': 'RVC'}]
+    for o in obs:
+        o['functions'] = mf
+    return obs
+
+
+class Stop(Exception):
+    pass
+
+
+def job_legacy_range(seed, shapes=((1,), (2,), (1, 2), (3,))):
+    """legacy Histogram::ProcessData, automatic range: after the range loops min_ == min(data) and max_ == max(data) for data of any sign"""
+    rvc.reset()
+    rel = 'tools/src/libtools/histogram.cc'
+    fns = rvc.functions(rvc.ast(rel, 'Histogram::ProcessData'))
+    if 'ProcessData' not in fns:
+        raise core.Undecided('front end: Histogram::ProcessData not found')
+    fn = fns['ProcessData'][0]
+    F = 'Histogram::ProcessData (automatic range)'
+    obs = []
+    DMAX, DMIN = sp.Symbol('DBL_MAX', positive=True), sp.Symbol('DBL_MIN', positive=True)
+    for shape in shapes:
+        n = sum(shape)
+        bound = 'data arrays of lengths %s' % (shape,)
+        P = rvc.Paths(budget=5000)
+        while True:
+            P.start()
+            vals = [sp.Symbol('d%d' % i, real=True) for i in range(n)]
+            # contract of numeric_limits<double>: max() bounds every finite double, min() is the smallest POSITIVE normal double, lowest() = -max()
+            rvc.CTX.base = [z3.Real('DBL_MIN') > 0, z3.Real('DBL_MAX') > z3.Real('DBL_MIN')] + [z3.And(z3.Real('d%d' % i) <= z3.Real('DBL_MAX'), z3.Real('d%d' % i) >= -z3.Real('DBL_MAX')) for i in range(n)]
+            data, k = [], 0
+            for ln in shape:
+                data.append([D(vv) for vv in vals[k:k + ln]])
+                k += ln
+            opts = {'n_': 11, 'auto_interval_': True, 'extend_interval_': False, 'min_': D(0), 'max_': D(1), 'periodic_': False, 'normalize_': False, 'scale_': 'no'}
+            this = {'options_': opts, 'pdf_': [], 'min_': D(0), 'max_': D(0), 'interval_': D(0)}
+            def nl(name, ty):
+                return {'max': D(DMAX), 'min': D(DMIN), 'lowest': D(-DMAX)}[name]
+            def floor_stop(x):
+                raise Stop()
+            ex = Exec({'data': data}, {'decide': P.decide, 'numeric_limits': nl, 'floor': floor_stop}, {}, this)
+            try:
+                ex.stmt(rvc.body_of(fn))
+            except Stop:
+                pass
+            except Ret:
+                pass
+            tag = 's%s.p%d' % ('_'.join(map(str, shape)), P.count)
+            zmin, zmax = rvc.to_z3(this['min_'].v), rvc.to_z3(this['max_'].v)
+            zv = [z3.Real('d%d' % i) for i in range(n)]
+            obs.append(rvc.logic('C13.legacy.range/%s/cover' % tag, F, 'every data value lies in [min_, max_]', z3.And(*[z3.And(zmin <= x, x <= zmax) for x in zv]), pc=P.pc, bound=bound))
+            obs.append(rvc.logic('C13.legacy.range/%s/tight' % tag, F, 'min_ and max_ are attained by data values (the range covers EXACTLY the data, for any sign of the data)',
+                                 z3.And(z3.Or(*[zmin == x for x in zv]), z3.Or(*[zmax == x for x in zv])), pc=P.pc, bound=bound))
+            if not P.next():
+                break
+    bad = [o for o in obs if o['status'] == core.REFUTED and isinstance(o.get('witness'), dict)]
+    if bad:
+        try:
+            exe = native.build('C13.legacy', open(os.path.join(CDIR, 'replay_legacy_range.cc')).read(), ['tools/src/libtools/histogram.cc'])
+            for o in bad:
+                w = o['witness']
+                vals = [w[k] for k in sorted(w) if k.startswith('d') and k[1:].isdigit()]
+                args = [repr(float(sp.Rational(str(x)))) for x in vals]
+                rc, out, err = native.execute(exe, args)
+                o['replay'] = {'reproduced': rc == 1, 'cmd': exe + ' ' + ' '.join(args), 'rc': rc, 'stdout': out[-300:], 'stderr': err[-300:], 'against': 'real Histogram::ProcessData (histogram.cc) with ASan+UBSan'}
+        except core.Undecided as e:
+            for o in bad:
+                o['replay'] = {'reproduced': False, 'error': str(e)}
+    mf = [{'name': 'Histogram::ProcessData', 'file': rel, 'ast_nodes': rvc.node_count(fn), 'route': 'RVC (range loops; execution stops at the first floor() of the binning loop)'}]
+    for o in obs:
+        o['functions'] = mf
+    return obs
+
+
+def collect(obs):
+    seen = set(f['name'] + f.get('route', '') for f in META['functions'])
+    for o in obs:
+        for f in o.pop('functions', []) or []:
+            if f['name'] + f.get('route', '') not in seen:
+                seen.add(f['name'] + f.get('route', ''))
+                META['functions'].append(f)
+
+
 def run(tier, seed, only=None):
-    jobs = [(process_ccv, (tier,))]
+    jobs = [(process_ccv, (tier,)), (job_process_logic, (seed,)), (job_initialize, (seed,)), (job_normalize, (seed,)), (job_legacy_range, (seed,))]
+    if only:
+        import re as _re
+        jobs = [j for j in jobs if _re.search(only, j[0].__name__)]
     obs = core.pmap(jobs)
+    collect(obs)
     return obs, META
